@@ -72,7 +72,7 @@ Qed.
 Lemma on_headers_complete_checked i i' : on_headers_complete C Server i = inl i' ->
   i' = set_ce i (hget K_CE (i_hdrs i)) /\ checked (i_info i).
 Proof.
-  intros H. split; [eapply on_headers_complete_spec; exact H|].
+  intros H. split; [pose proof H as H2; apply on_headers_complete_spec in H2; rewrite H2; destruct i; reflexivity|].
   unfold on_headers_complete in H.
   destruct (p11 (i_info i) && negb (hmem K_HOST (i_hdrs i))) eqn:E; [discriminate|].
   destruct (c_hdrs C (p11 (i_info i)) (i_hdrs i)) eqn:HC; try discriminate.
@@ -205,7 +205,7 @@ Definition hdrs_callee (p : bool) (h : hdrs) : hres :=
   | ST.HostEscape => HEscape
   end.
 Definition plug : callees :=
-  {| c_start := start_callee; c_hdrs := hdrs_callee; c_decode := c_decode C; c_2047 := c_2047 C; c_trailer := c_trailer C |}.
+  {| c_start := start_callee; c_hdrs := hdrs_callee; c_decode := c_decode C; c_2047 := c_2047 C; c_trailer := c_trailer C; c_connect := c_connect C |}.
 
 Lemma host_port_set_indep d1 d2 pz p : ST.host_port_set d1 pz = UriSyntax.Ok p -> exists p', ST.host_port_set d2 pz = UriSyntax.Ok p'.
 Proof.
